@@ -52,6 +52,8 @@ type regCase struct {
 	FailAt int      `json:"failAt"` // node id whose factory fails (-1: none)
 	// FailPos: the failing factory fails after this many of its ops (-1: after all)
 	FailPos int `json:"failPos"`
+	// FailRef: the failing factory returns the object it was building together with its error
+	FailRef bool `json:"failRef,omitempty"`
 }
 
 type dummyComp struct{ N string }
@@ -151,6 +153,9 @@ func runRegCase(c *regCase) (calls []model.RegCall, panicMsg string) {
 			final := newMeta(n.Name)
 			for i, op := range n.Ops {
 				if c.FailAt == n.ID && c.FailPos == i {
+					if c.FailRef {
+						return final, errRegInjected
+					}
 					return nil, errRegInjected
 				}
 				switch op.Kind {
@@ -184,6 +189,9 @@ func runRegCase(c *regCase) (calls []model.RegCall, panicMsg string) {
 				}
 			}
 			if c.FailAt == n.ID && (c.FailPos < 0 || c.FailPos >= len(n.Ops)) {
+				if c.FailRef {
+					return final, errRegInjected
+				}
 				return nil, errRegInjected
 			}
 			// like the real factory: adopt the early reference if one was handed out
@@ -258,7 +266,11 @@ func regsimBatch(job *Job, n int, acc *statAcc, res *Result) {
 		cases := []*regCase{{Tree: tree, FailAt: -1, FailPos: -1}}
 		for _, nd := range nodes {
 			for pos := -1; pos < len(nd.Ops); pos++ {
-				cases = append(cases, &regCase{Tree: tree, FailAt: nd.ID, FailPos: pos})
+				cases = append(cases, &regCase{Tree: tree, FailAt: nd.ID, FailPos: pos, FailRef: pos >= 0 && (nd.ID+pos)%3 == 0})
+				if pos == -1 {
+					// a factory that fails at the very end hands back what it built, with the error
+					cases = append(cases, &regCase{Tree: tree, FailAt: nd.ID, FailPos: pos, FailRef: true})
+				}
 			}
 		}
 		for _, c := range cases {
